@@ -52,6 +52,28 @@ def check_eq_through_getitem(ctx, rule, rel, cls, eq):
            "serialised compares unequal to the same container after a lookup", eq.lineno)
 
 
+def check_eq_key_sets(ctx, rule, rel, cls, eq):
+    """a mapping-like container equals another only if BOTH have the same keys: a loop over self's keys alone never looks at a key
+    that only the other one has (equality would not be symmetric).  Accepted: a refusing comparison of the two key sets, or equal
+    lengths together with a membership test of every key in the other."""
+    from .exprnorm import canon, spec
+    from .facts import disjuncts
+    other = param_names(eq)[1]
+    refusals = []
+    for st in walk_local(eq):
+        if isinstance(st, ast.If) and any(isinstance(b, ast.Return) and isinstance(b.value, ast.Constant) and b.value.value is False for b in st.body):
+            refusals.extend(canon(d) for d in disjuncts(st.test))
+    both = any(r in refusals for r in (spec(f"set(self.keys()) != set({other}.keys())"), spec(f"self.keys() != {other}.keys()"),
+                                       spec(f"set(self) != set({other})"), spec(f"sorted(self.keys()) != sorted({other}.keys())")))
+    lengths = spec(f"len(self) != len({other})") in refusals
+    member = any(isinstance(r, tuple) and r[:1] == ("not",) and isinstance(r[1], tuple) and r[1][:1] == ("cmp",) for r in refusals) or \
+        any(isinstance(c, ast.Compare) and len(c.ops) == 1 and isinstance(c.ops[0], ast.NotIn) and isinstance(c.comparators[0], ast.Name)
+            and c.comparators[0].id == other for c in walk_local(eq))
+    ctx.ob(rule, rel, f"{cls}.__eq__", "both key sets compared", both or (lengths and member),
+           f"{cls}.__eq__ walks over its own keys only: a key that exists only in `{other}` is never seen, so small == large while large != small",
+           eq.lineno)
+
+
 def check_lazy_attributes(ctx, rule, rel, cls, methods):
     """getters that parse a cached attribute on demand (`self._x = X.deserialize(self._x)`) must store the parsed object
     back into the attribute they return: otherwise every access hands out a new throw-away object and edits are lost"""
